@@ -171,6 +171,9 @@ def make_state(seed):
         import re as _re
 
         src = _re.sub(r"argument_parser\.description = '([^' ]+) ([^']*)'", lambda m: "argument_parser.description = '%s ' + '%s'" % (m.group(1), m.group(2)), src, count=1)
+    if kind == "argparse" and src.rstrip().endswith("return argument_parser") and '"""' not in src and ch.chance("triple", 0.5):
+        # a hand-written function that returns more than the parser and one value
+        src = src.rstrip()[: -len("return argument_parser")] + "return argument_parser, 640, 480\n"
     if kind != "live_function" and ch.chance("qualified", 0.25):
         # annotations spelled through the module (typing.Optional[int], List[typing.Any]): names nested inside a subscript
         src = src.replace(": Optional[", ": typing.Optional[").replace(": Literal[", ": typing.Literal[").replace("Optional[List[", "Optional[typing.List[")
@@ -247,7 +250,12 @@ def explore(state, seq_len=3, sample4=0, only=None):
     setup()
     ops = _ops()
     names = [n for n, _ in ops]
-    S0, T0, U0 = build(state)
+    try:
+        S0, T0, U0 = build(state)
+    except Exception as e:
+        # the parser rejects this definition outright (alone, in a pristine process): there is no shared description to
+        # interfere through; counted, not judged (a crash on a legal input is C20's / C19's subject)
+        return [], {"sequences": 0, "calls": 0, "ref_exceptions": 0, "hidden_process_state": 0, "unbuildable": type(e).__name__}
     # reference results: each call alone, on a pristine copy, in a forked child - a process that has done nothing else
     from dtsim import fs
 
